@@ -30,14 +30,40 @@ import vlib
 PLAN_VERSION = "lfhtc-9"
 
 # ---- theorem lists (fill from Props/*.lean at integration; names are fully qualified) -----------------------------
-THEOREMS05 = []
-UNPROVED05 = []
-THEOREMS06 = []
-UNPROVED06 = []
-THEOREMS07 = []
-UNPROVED07 = []
-THEOREMS17 = []
-UNPROVED17 = []
+THEOREMS05 = ['UrcuVerif.Lfht.Conc.C05_partial_holds',
+              'UrcuVerif.Lfht.Conc.chain_L',
+              'UrcuVerif.Lfht.Conc.sorted_L',
+              'UrcuVerif.Lfht.Conc.unremoved_linked_in_L',
+              'UrcuVerif.Lfht.Conc.sorted_edges',
+              'UrcuVerif.Lfht.Conc.insert_cas_sound',
+              'UrcuVerif.Lfht.Conc.grow_before_publish',
+              'UrcuVerif.Lfht.Conc.traversal_monotone',
+              'UrcuVerif.Lfht.Conc.visible_set_linearizes',
+              'UrcuVerif.Lfht.Conc.found_was_visible_thm',
+              'UrcuVerif.Lfht.Conc.resident_found',
+              'UrcuVerif.Lfht.Conc.invRFL_reach',
+              'UrcuVerif.Lfht.Conc.invRFA_reach']
+UNPROVED05 = ['UrcuVerif.Lfht.Conc.C05_full = C05_partial ∧ ResidentFoundTraversal (first/next traversal across calls through the saved iterator: stated, unproved); no mechanised refinement to Spec.Multimap: visible_set_linearizes + found_was_visible + resident_found are the linearisation-point facts, global linearizability is checked by the Wing–Gong oracle on explored schedules only']
+THEOREMS06 = ['UrcuVerif.Lfht.Conc.C06_partial_holds',
+              'UrcuVerif.Lfht.Conc.replace_atomic',
+              'UrcuVerif.Lfht.Conc.replace_keeps_key_visible',
+              'UrcuVerif.Lfht.Conc.unique_inserts_at_run_head',
+              'UrcuVerif.Lfht.Conc.replace_single_owner']
+UNPROVED06 = ['UrcuVerif.Lfht.Conc.C06_full = C06_partial ∧ UniqInL ∧ NoTwoVisible ∧ OneWinner (need a scan-coverage invariant on the duplicate scan: stated, unproved; checked by the dupkey oracle on explored schedules only)']
+THEOREMS07 = ['UrcuVerif.Lfht.Conc.C07_partial_holds',
+              'UrcuVerif.Lfht.Conc.single_owner_state',
+              'UrcuVerif.Lfht.Conc.single_owner_run',
+              'UrcuVerif.Lfht.Conc.removed_frozen',
+              'UrcuVerif.Lfht.Conc.bucket_never_removed_while_published',
+              'UrcuVerif.Lfht.Conc.or_instead_of_xchg_two_owners',
+              'UrcuVerif.Lfht.Conc.single_owner_needs_xchg']
+UNPROVED07 = ["UrcuVerif.Lfht.Conc.C07_full = C07_partial ∧ DelReturnsUnlinked ∧ ReclaimSafe (gc_bucket postcondition and 'pointer held since before the unlink' invariant: stated, unproved; checked by the quarantine / gp oracles on explored schedules only)"]
+THEOREMS17 = ['UrcuVerif.Lfht.Conc.C17Lfht_partial_holds',
+              'UrcuVerif.Lfht.Conc.walker_wait_free_thm',
+              'UrcuVerif.Lfht.Conc.hop_decreases',
+              'UrcuVerif.Lfht.Conc.cas_fails_only_by_interference',
+              'UrcuVerif.Lfht.Conc.invU_reach']
+UNPROVED17 = ['UrcuVerif.Lfht.Conc.C17Lfht_full adds SoloTerminates for add / add_unique / add_replace / replace / del (lexicographic measure over helping restarts: stated, unproved; checked by the progress oracle on freeze schedules only); walker_wait_free assumes NoFreedAhead (= the unproved reclaim_safe)']
 AUDIT_MODS = ["UrcuVerif.Lfht.Conc", "UrcuVerif.Lfht.Bits", "UrcuVerif.Machine"]      # with a Props file: model + invariants + statements
 AUDIT_MODEL = ["UrcuVerif.Lfht.Conc." + m for m in ("Types", "Model", "Step", "Step2", "Step3")] + ["UrcuVerif.Lfht.Bits", "UrcuVerif.Machine"]
 MODEL_TARGET = "UrcuVerif.Lfht.Conc.Step3"
@@ -561,7 +587,8 @@ def proof(chk, props_name, theorems, unproved, extra_targets=()):
     pfile = os.path.join(vlib.LEAN, "UrcuVerif", "Props", props_name + ".lean")
     if os.path.exists(pfile) and theorems:
         mod = "UrcuVerif.Props." + props_name
-        return chk.proof_part([mod, "drv_lfhtc"] + list(extra_targets), mod, theorems, AUDIT_MODS + [mod], unproved=unproved)
+        mods = [mod] + (["UrcuVerif.Neg.C07"] if props_name == "C07" else [])
+        return chk.proof_part(mods + ["drv_lfhtc"] + list(extra_targets), mods, theorems, AUDIT_MODS + mods, unproved=unproved)
     why = ("UrcuVerif/Props/%s.lean %s: no theorem of this property is checked by this run; only the executable model "
            "(Lfht/Conc/Step3) and the driver are built" % (props_name, "has no registered theorem list in props/c05.py" if os.path.exists(pfile) else "is not present"))
     chk.notes.append(why)
